@@ -419,6 +419,40 @@ def _fresh_answers(cachetime):
     return ans
 
 
+def _shard_b_ro(shard, seed, tier):
+    """Histories of listings while the server cannot write its cache files (a tree it does not own, a read-only
+    mount): every listing is still answered, at once, and as on a fresh tree."""
+    from . import c11
+
+    part = core.Partial()
+    c11._patch_ro()
+    old_limit = rig.REQUEST_TIME_LIMIT
+    rig.REQUEST_TIME_LIMIT = 4
+    fresh = _fresh_answers(180)
+    hangs = 0
+    try:
+        for hist in shard:
+            c11._ro = True
+            try:
+                bad, digest, lz = _run_history(hist, 180, fresh)
+            finally:
+                c11._ro = False
+            part.evaluations += 1
+            part.transitions += len(hist)
+            part.state("b-ro", digest, lz, hist[-1], len(hist))
+            part.outcome("b-ro", hist[-1], bad[0] if bad else "")
+            if bad:
+                part.violation("b-readonly|%s|%s" % ("->".join("%s:%s" % (MENU_B[i][0], MENU_B[i][1].decode()) for i in hist), bad[0]), bad[1], {"part": "b-ro", "hist": list(hist)})
+                if "RequestTimeout" in bad[1]:
+                    hangs += 1
+                    if hangs >= 3:
+                        part.extra.setdefault("capped", []).append("read-only shard aborted after %d hanging requests" % hangs)
+                        break
+    finally:
+        rig.REQUEST_TIME_LIMIT = old_limit
+    return part
+
+
 def _shard_b(shard, seed, tier):
     global _b_handlers
     part = core.Partial()
@@ -440,6 +474,9 @@ def _shard_b(shard, seed, tier):
 
 
 def replay(case):
+    if case["part"] == "b-ro":
+        p = _shard_b_ro([tuple(case["hist"])], 0, "quick")
+        return (p.violations[0][0], p.violations[0][1]) if p.violations else None
     if case["part"] == "deploy":
         p = _shard_deploy(case["mode"], 0, "quick")
         for k, det, c in p.violations:
@@ -506,6 +543,9 @@ def run(ck):
         # the plain DirHandler list (dot-files are listed there): ordered pairs
         for ch in core.chunks([h for h in hists if len(h) == 2], core.NPROC):
             bshards.append((cachetime, ch, PLAIN_DIR_LIST))
+    listing_idx = [i for i, m in enumerate(MENU_B) if len(m) == 2 and m[1] in (b"/", b"/a", b"/md/cur", b"/emptydir", b"/gm", b"/a/deep", b"/alias-of-a", b"/.cap")][:10]
+    ro_hists = [(i, j) for i in listing_idx for j in listing_idx] + [(i, j, k) for i in listing_idx[:4] for j in listing_idx[:4] for k in listing_idx[:4]]
+    ck.pmap(_shard_b_ro, core.chunks(ro_hists, core.NPROC))
     ck.pmap(_shard_b, bshards)
     ck.rule = (
         "(a) every request = wrapper x encoding x path (<=2 segments over %d segments x 3 separators, <=3 over the core alphabet, "
